@@ -101,6 +101,20 @@ def judge_bal(case, res):
     kn_share = known_bal_shared_kwargs(case)
     inputs = OrderedDict()
     info = []
+    # a balance that re-uses the first balance's lhs_kwargs dict asks for what that dict says
+    eff = []
+    for i, b in enumerate(bals):
+        if i > 0 and b.get('share_lhs_kw') and bals[0].get('lhs_kw') is not None:
+            shared = bals[0]['lhs_kw']
+            if shared.get('units') is not None and b.get('eq_units') not in (None, shared['units']):
+                res.discard = 'shared lhs_kwargs ask for units that conflict with eq_units of the second balance'
+                return
+            if 'val' in shared and bal_shape(b) != bal_shape(bals[0]):
+                res.discard = 'shared lhs_kwargs carry a value of another shape'
+                return
+            b = dict(b, lhs_kw=dict(shared))
+        eff.append(b)
+    bals = eff
     for b in bals:
         shape = bal_shape(b)
         ln, rn, mn = _bal_names(b)
@@ -511,6 +525,13 @@ def judge_spline(case, res):
         else:
             # akima is not linear in the values: central differences of the reference with a convergence gate
             ok = True
+            # akima's weights are |differences of consecutive slopes|: where two consecutive slopes are equal (collinear
+            # control points, e.g. all zeros) the interpolant is not differentiable in the values (it is positively
+            # homogeneous there, not linear), so no Jacobian exists to compare with
+            for k in range(v):
+                sl = np.diff(np.asarray(Y.val[k], dtype=float)) / np.diff(np.asarray(grid, dtype=float))
+                if sl.size >= 2 and np.any(np.abs(np.diff(sl)) <= 1e-9 * max(1.0, float(np.max(np.abs(sl))))):
+                    ok = False
             for k in range(v):
                 for j in range(ncp):
                     cols = []
@@ -521,6 +542,18 @@ def judge_spline(case, res):
                         ym[j] -= hh
                         cols.append((ref_interp(case, grid, xi, [yp])[0] - ref_interp(case, grid, xi, [ym])[0]) / (2 * hh))
                     if np.max(np.abs(cols[0] - cols[1])) > 1e-6 * amp:
+                        ok = False
+                    # kink gate: akima's weights are absolute values of slope differences, so at (nearly) collinear
+                    # control values the interpolant has a kink in the values; a central difference is then the mean of
+                    # two different one-sided derivatives and says nothing about the partial the component may return
+                    hh = 5e-5 * max(float(np.max(Y.mag[k])), 1e-3)
+                    y0_ = ref_interp(case, grid, xi, [Y.val[k].copy()])[0]
+                    yp, ym = Y.val[k].copy(), Y.val[k].copy()
+                    yp[j] += hh
+                    ym[j] -= hh
+                    fwd = (ref_interp(case, grid, xi, [yp])[0] - y0_) / hh
+                    bwd = (y0_ - ref_interp(case, grid, xi, [ym])[0]) / hh
+                    if np.max(np.abs(fwd - bwd)) > 1e-3 * max(1.0, float(np.max(np.abs(cols[1])))):
                         ok = False
                     Jm[k * ni:(k + 1) * ni, k * ncp + j] = cols[1]
             extra[s['out']] = ('fd', Jm, ok)
